@@ -18,7 +18,7 @@ sys.path.insert(0, os.path.dirname(os.path.abspath(__file__)))
 VERIF_ROOT = os.path.dirname(os.path.dirname(os.path.abspath(__file__)))
 from rustsrc import Source, Item, ExtractError, mask, match_close, loop_headers, split_args  # noqa: E402
 
-SECTION_KEYS = ('loopensures', 'enumerate_loop', 'ghost_begin', 'derive-', 'slow', 'loopproof', 'proof_begin', 'assumed_from', 'props', 'requires', 'ensures', 'decreases', 'invariant', 'loopdec', 'proof', 'returns', 'attr',
+SECTION_KEYS = ('loopensures', 'enumerate_loop', 'ghost_begin', 'ghost_at', 'derive-', 'slow', 'loopproof', 'proof_begin', 'assumed_from', 'props', 'requires', 'ensures', 'decreases', 'invariant', 'loopdec', 'proof', 'returns', 'attr',
                 'derive+', 'nested', 'specialize', 'novac', 'external_body', 'rename', 'recommends', 'loopiter',
                 'opens_invariants', 'no_unwind')
 
@@ -36,6 +36,7 @@ class Contract:
         self.proof = None       # text
         self.proof_begin = None
         self.ghost_begin = None   # ghost `let` statements at the very beginning of the body
+        self.ghost_at = {}        # (callee, ordinal, 'before'|'after') -> ghost statements next to that call statement
         self.loopproof = {}     # loop ordinal -> proof text placed at the beginning of the loop body
         self.returns = None
         self.attrs = []
@@ -145,6 +146,9 @@ class Unit:
             if key == 'ghost_begin':
                 c.ghost_begin = (c.ghost_begin + '\n' if c.ghost_begin else '') + text
                 return
+            if key == 'ghost_at':
+                c.ghost_at[arg] = (c.ghost_at[arg] + '\n' if c.ghost_at.get(arg) else '') + text
+                return
             if key == 'proof_begin':
                 c.proof_begin = (c.proof_begin + '\n' if c.proof_begin else '') + text
                 return
@@ -215,15 +219,15 @@ class Unit:
                 continue
             if cur is None:
                 continue
-            in_proof = section is not None and section[0] in ('proof', 'proof_begin', 'loopproof', 'ghost_begin')
+            in_proof = section is not None and section[0] in ('proof', 'proof_begin', 'loopproof', 'ghost_begin', 'ghost_at')
             if not line or ((line == '#' or line.startswith('# ')) and not in_proof):
                 if in_proof and buf is not None:
                     buf.append(raw)
                 continue
             first = line.split()[0]
             indent = len(raw) - len(raw.lstrip())
-            is_key = first in SECTION_KEYS and (section is None or section[0] not in ('proof', 'proof_begin', 'loopproof', 'ghost_begin') or indent <= 2)
-            if is_key and (clause_indent is None or indent < clause_indent or section is None or section[0] in ('proof', 'proof_begin', 'loopproof', 'ghost_begin')):
+            is_key = first in SECTION_KEYS and (section is None or section[0] not in ('proof', 'proof_begin', 'loopproof', 'ghost_begin', 'ghost_at') or indent <= 2)
+            if is_key and (clause_indent is None or indent < clause_indent or section is None or section[0] in ('proof', 'proof_begin', 'loopproof', 'ghost_begin', 'ghost_at')):
                 flush_clause()
                 rest = line[len(first):].strip()
                 c = target()
@@ -239,6 +243,14 @@ class Unit:
                     buf = []
                 elif first == 'loopproof':
                     section = ('loopproof', int(rest))
+                    clause_indent = None
+                    buf = []
+                elif first == 'ghost_at':
+                    # ghost_at <callee>[#k] before|after : ghost statements next to the k-th statement calling <callee>
+                    m = re.match(r'([\w:]+)(?:#(\d+))?\s+(before|after)$', rest)
+                    if not m:
+                        raise ExtractError('%s:%d: bad ghost_at line' % (self.path, i))
+                    section = ('ghost_at', (m.group(1), int(m.group(2) or 1), m.group(3)))
                     clause_indent = None
                     buf = []
                 elif first == 'returns':
@@ -298,7 +310,7 @@ class Unit:
                 continue
             if section is None:
                 raise ExtractError('%s:%d: text outside a section: %s' % (self.path, i, line))
-            if section[0] in ('proof', 'proof_begin', 'loopproof', 'ghost_begin'):
+            if section[0] in ('proof', 'proof_begin', 'loopproof', 'ghost_begin', 'ghost_at'):
                 buf.append(raw)
                 continue
             if clause_indent is None:
@@ -420,8 +432,26 @@ class Emitter:
         kw, br, kind = loops[k - 1]
         header = body[kw:br]
         mm = re.match(r'for\s*\(\s*(\w+)\s*,\s*(\w+)\s*\)\s+in\s+(.+?)\.iter\(\)\s*(?:\.take\((.+)\)\s*)?\.enumerate\(\)\s*$', header.strip(), re.S)
+        if kind == 'for' and not mm:
+            # R12: `for x in E.iter().skip(K) { B }`        -> `let mut index_k: usize = K; while index_k < E.len() { let x = &E[index_k]; B  index_k += 1; }`
+            #      `for x in E.iter().skip(K).rev() { B }`  -> `let mut index_k: usize = E.len(); while index_k > K { index_k -= 1; let x = &E[index_k]; B }`
+            ms = re.match(r'for\s+(\w+)\s+in\s+(.+?)\.iter\(\)\s*\.skip\((.+?)\)\s*(\.rev\(\)\s*)?$', header.strip(), re.S)
+            if ms:
+                x, e, sk, rev = ms.group(1), ' '.join(ms.group(2).split()), ' '.join(ms.group(3).split()), ms.group(4)
+                close = match_close(masked, br)
+                if re.search(r'\bcontinue\b', masked[br + 1:close]):
+                    raise ExtractError('%s: loop %d contains `continue` (R12 not applicable)' % (fnid, k))
+                iv = 'index_%d' % k
+                if rev:
+                    new = ('let mut %s: usize = %s.len();\n    while %s > %s {\n        %s -= 1;\n        let %s = &%s[%s];' % (iv, e, iv, sk, iv, x, e, iv)
+                           + body[br + 1:close].rstrip() + '\n    }')
+                else:
+                    new = ('let mut %s: usize = %s;\n    while %s < %s.len() {\n        let %s = &%s[%s];' % (iv, sk, iv, e, x, e, iv)
+                           + body[br + 1:close].rstrip() + '\n        %s += 1;\n    }' % iv)
+                self.rules.add('R12')
+                return body[:kw] + new + body[close + 1:]
         if kind != 'for' or not mm:
-            raise ExtractError('%s: loop %d is not of the form `for (i, x) in E.iter()[.take(K)].enumerate()` (R6 not applicable)' % (fnid, k))
+            raise ExtractError('%s: loop %d is not of the form `for (i, x) in E.iter()[.take(K)].enumerate()` or `for x in E.iter().skip(K)[.rev()]` (R6/R12 not applicable)' % (fnid, k))
         i, x, e = mm.group(1), mm.group(2), ' '.join(mm.group(3).split())
         take = ' '.join(mm.group(4).split()) if mm.group(4) else None
         close = match_close(masked, br)
@@ -491,6 +521,24 @@ class Emitter:
                 raise ExtractError('%s: contract names loop %d but the function has %d loops (anchor lost)' % (fnid, k, len(own_loops)))
         if contract.ghost_begin:
             edits.append((1, '\n' + mark(contract.ghost_begin, fnid + '::proof')))
+        for (callee, ordinal, where), gtxt in contract.ghost_at.items():
+            # the statement that contains the k-th call of `callee` at the top level of this body (not in a nested fn)
+            hits = [m for m in re.finditer(r'(?<![\w:.])' + re.escape(callee) + r'\s*\(', masked)
+                    if not any(a <= m.start() < b for a, b, _ in nested_spans)]
+            if ordinal > len(hits):
+                raise ExtractError('%s: ghost_at %s#%d: call not found (anchor lost)' % (fnid, callee, ordinal))
+            m = hits[ordinal - 1]
+            par_close = match_close(masked, m.end() - 1)
+            semi = masked.find(';', par_close)
+            if semi < 0 or masked[par_close + 1:semi].strip():
+                raise ExtractError('%s: ghost_at %s#%d: the call is not a statement of its own (anchor lost)' % (fnid, callee, ordinal))
+            start = masked.rfind('\n', 0, m.start()) + 1
+            if masked[start:m.start()].strip():
+                raise ExtractError('%s: ghost_at %s#%d: the call does not start its statement (anchor lost)' % (fnid, callee, ordinal))
+            if where == 'after':
+                edits.append((semi + 1, '\n' + mark(gtxt, fnid + '::proof')))
+            else:
+                edits.append((start, mark(gtxt, fnid + '::proof') + '\n'))
         if contract.proof_begin:
             ptxt = '\n' + mark('    proof {\n' + contract.proof_begin + '\n    }', fnid + '::proof')
             edits.append((1, ptxt))
